@@ -36,6 +36,11 @@ fn main() {
     if a.len() < 2 {
         usage();
     }
+    // Harness-side evaluators are self-tested against hand-computed cases on every start.
+    if let Err(e) = rangeoracle::self_test() {
+        println!("HARNESS-ERROR oracle self-test failed: {e}");
+        std::process::exit(2);
+    }
     match a[1].as_str() {
         "list" => {
             for s in registry() {
